@@ -182,7 +182,12 @@ class ConnectionState:
         return response, None
 
     async def do_select(self, cmd: SelectCommand) -> _CommandRet:
-        self._selected = None
+        # The previous selection is given up explicitly: the object may stay
+        # referenced for a while, e.g. by a command of another connection
+        # that has picked it to receive \Recent.
+        selected, self._selected = self._selected, None
+        if selected is not None:
+            selected.release()
         mailbox, updates = await self.session.select_mailbox(
             cmd.mailbox, cmd.readonly)
         if updates.readonly:
@@ -297,9 +302,12 @@ class ConnectionState:
         # RFC 3501 6.4.2: the connection returns to the authenticated state
         # whatever becomes of the implicit expunge.
         selected, self._selected = self.selected, None
-        if not selected.readonly:
-            with suppress(MailboxNotFound):  # deleted by another session
-                await self.session.expunge_mailbox(selected)
+        try:
+            if not selected.readonly:
+                with suppress(MailboxNotFound):  # deleted by another session
+                    await self.session.expunge_mailbox(selected)
+        finally:
+            selected.release()
         return ResponseOk(cmd.tag, cmd.command + b' completed.'), None
 
     async def do_expunge(self, cmd: ExpungeCommand) -> _CommandRet:
